@@ -1,7 +1,7 @@
 #!/bin/bash
 # run the property's own quick check against every seeded change (both rounds), one after the other
 cd /verif
-for p in $(seq -w 1 20); do for m in m1 m2 r2m1 r2m2; do
+for p in $(seq -w 1 20); do for m in m1 m2 r2m1 r2m2 r3m1 r3m2; do
   python3 tools/seed.py detect C$p $m quick > /var/tmp/seedrec/detectlog-C$p-$m.txt 2>&1
   d=$(grep -o '"detected": [a-z]*' /var/tmp/seedrec/detectlog-C$p-$m.txt | head -1)
   echo "C$p $m $d"
